@@ -3,7 +3,7 @@ sys.path.insert(0, '/verif')
 from pyvc.extract import Repo
 from pyvc.engine import Engine
 from pyvc import spec as S, cmdspec
-import contracts.eems_common, contracts.eems_basic as EB
+import contracts.eems_common, contracts.eems_basic as EB, contracts.eems_fuzzy
 repo = Repo()
 names = sys.argv[1:] or ["AMinusB", "Sum"]
 for n in names:
